@@ -447,12 +447,16 @@ c0 = %(c0)s
 c = %(c)s
 rsys = ReactionSystem.from_string("\\n".join(s + "; 1" for s in rxn_strs), substance_factory=Substance.from_formula)
 names = list(rsys.substances)
+before = {n: dict(rsys.substances[n].composition) for n in names}
+cbv_before = rsys.composition_balance_vectors()
 ub = rsys.upper_conc_bounds([c0[n] for n in names], min_=min, dtype=object)
+bad = []
+if {n: dict(rsys.substances[n].composition) for n in names} != before: bad.append("the query changed the compositions of the substances")
+if rsys.composition_balance_vectors() != cbv_before: bad.append("composition_balance_vectors differs after the query")
 tot = {}
 for n in names:
     for e, a in rsys.substances[n].composition.items():
         if e != 0: tot[e] = tot.get(e, 0) + a * c0[n]
-bad = []
 for n, u in zip(names, ub):
     cand = [tot[e] / a for e, a in rsys.substances[n].composition.items() if e != 0]
     exp = min(cand) if cand else float("inf")
@@ -479,17 +483,23 @@ def task_bounds(systems):
         assum = [v.t >= 0 for v in c0.values()]
         comps = {n: {e: a for e, a in rsys.substances[n].composition.items() if e != 0} for n in names}
         elems = sorted(set().union(*[set(d) for d in comps.values()]))
+        full = {n: dict(rsys.substances[n].composition) for n in names}  # incl. the charge entry
+        cbv0 = rsys.composition_balance_vectors()
 
         def fn():
             arr = rsys.as_per_substance_array(c0, dtype=object)
             back = rsys.as_per_substance_dict(arr)
             ub = rsys.upper_conc_bounds(c0, min_=min, dtype=object)
-            return ub, arr, back
+            # history: a query must leave the system as it was (the substances are shared with every other view of the system)
+            untouched = {n: dict(rsys.substances[n].composition) for n in names} == full and rsys.composition_balance_vectors() == cbv0
+            return ub, arr, back, untouched
 
         def goal(p, twin=False):
             if p.kind == "exc":
                 return False
-            ub, arr, back = p.value
+            ub, arr, back, untouched = p.value
+            if not untouched:
+                return False
             conds = []
             if len(arr) != len(names) or list(back) != names:
                 return False
